@@ -43,9 +43,11 @@ META = {
                "Tridonic: a send abandoned (cancelled) after its frame was written, the next send started at "
                "once, 0..2 late reports of the first delivered before the second's own",
                "daliserver per-command connections: a pushed bus-traffic frame may arrive in the same segment "
-               "as the reply of the first two transmissions (stream socket: recv(n) returns at most n bytes)"],
+               "as the reply of the first two transmissions (stream socket: recv(n) returns at most n bytes)",
+               "ATX hat: three commands through one driver object (send-twice command acknowledged once or twice, "
+               "send-twice command, query with a symbolic answer)"],
     "stubs": ["fake os / transport (harness environment)", "struct format interpreter in symbolic mode",
-              "SymKeyDict for tridonic._outstanding in symbolic mode"],
+              "in symbolic mode every empty dict the driver object owns becomes a dict that tolerates symbolic keys"],
     "outside": ["3 or more concurrent callers", "a surplus transmit-echo report for the command in flight "
                 "(the Tridonic firmware quirk described in hid.py: the driver then waits forever)", "ATX hat retry loop beyond one reply line",
                 "gateway reports a real gateway cannot produce (DALI8 report with non-zero upper bytes)"],
